@@ -59,7 +59,11 @@ def stepC01 (toks : List String) : Option String :=
   | ["hintok", l, last, hint] => do
     let l ← parseRngs l; let last ← parseOptRng last; let h ← parseHint hint
     let s : Src := { depth := 0, items := l, last := last, lo := h.1, hi := h.2 }
-    pure (showBool s.hintOkB)
+    pure (showBool (s.hintOkB && s.lastExactB false))
+  | ["hintok0", l, last, hint] => do
+    let l ← parseRngs l; let last ← parseOptRng last; let h ← parseHint hint
+    let s : Src := { depth := 0, items := l, last := last, lo := h.1, hi := h.2 }
+    pure (showBool (s.hintOkB && s.lastExactB true))
   | ["canon", l] => do let l ← parseRngs l; pure (showBool (canonB l))
   | ["params", q, w] => do
     let q ← qtyOf q; let w ← w.toNat?
